@@ -66,6 +66,7 @@ class Contract:
         self.may_raise_exprs = []
         self.check_frame = True
         self.hooks = {}
+        self.chooses = {}
         self.exc_classes = []
         self.cuts = []
         self.callsites = {}
@@ -159,6 +160,13 @@ class Contract:
         """Obligations checked at every call of a modelled callable whose path ends with `suffix`
         (the argument is bound to the name `arg`)."""
         self.callsites[suffix] = [Clause(k, v, top=(k in top), props=props) for k, v in clauses.items()]
+        return self
+
+    def choose(self, stmt_text, var, pred, when="True", props=()):
+        """Ghost choice right after a statement: proves `when ==> exists i. pred(i)` and binds ghost `var` to such an i
+        (a fresh constant about which only `when ==> pred(var)` is known).  pred is 'lambda i: ...'."""
+        key = ast.unparse(ast.parse(stmt_text).body[0])
+        self.chooses.setdefault(key, []).append({"var": var, "pred": ast.parse(pred, mode="eval").body, "when": ast.parse(when, mode="eval").body, "props": tuple(props), "src": pred})
         return self
 
     def strings(self, **kw):
